@@ -15,11 +15,62 @@ var (
 	vfHour int
 )
 
-func vfStubWeekday(t time.Time) time.Weekday { return vfWD }
-func vfStubHour(t time.Time) int             { return vfHour }
+// The model clock has two faces: what the instant reads in the machine's zone (vfWD, vfHour) and in UTC (vfUTCWD,
+// vfUTCHour). A time value converted with UTC() / In(time.UTC) is marked by moving its instant beyond every
+// reading of the model clock (which stays below 2^61 ns); Local() / In(time.Local) removes the mark.
+var (
+	vfUTCWD   time.Weekday
+	vfUTCHour int
+)
+
+const vfUTCMark = 1 << 62
+
+func vfInUTC(t time.Time) bool { return t.UnixNano() >= vfUTCMark }
+
+func vfStubWeekday(t time.Time) time.Weekday {
+	if vfInUTC(t) {
+		return vfUTCWD
+	}
+	return vfWD
+}
+
+func vfStubHour(t time.Time) int {
+	if vfInUTC(t) {
+		return vfUTCHour
+	}
+	return vfHour
+}
+
+func vfStubUTC(t time.Time) time.Time {
+	if vfInUTC(t) {
+		return t
+	}
+	return t.Add(vfUTCMark)
+}
+
+func vfStubLocal(t time.Time) time.Time {
+	if vfInUTC(t) {
+		return t.Add(-vfUTCMark)
+	}
+	return t
+}
+
+func vfStubIn(t time.Time, loc *time.Location) time.Time {
+	switch loc {
+	case time.UTC:
+		return vfStubUTC(t)
+	case time.Local:
+		return vfStubLocal(t)
+	}
+	vfrt.Unsupported("conversion to a zone other than UTC and Local")
+	return t
+}
 
 //vf:override (time.Time).Weekday = vfStubWeekday
 //vf:override (time.Time).Hour = vfStubHour
+//vf:override (time.Time).UTC = vfStubUTC
+//vf:override (time.Time).Local = vfStubLocal
+//vf:override (time.Time).In = vfStubIn
 
 //vf:harness property=C04 nopanic reach=timeframe-allowed,timeframe-refused
 func vfH_C04_timeframe() {
@@ -59,4 +110,28 @@ func vfH_C04_timeframe() {
 		vfrt.Reach("timeframe-refused")
 	}
 	vfrt.Assert(got == want, "timeframe/allowed-iff-some-entry-covers-now")
+}
+
+//vf:assume C04-timeframe-zone: the clock the middleware itself reads (getCurrentTime is left as the code has it; time.Now is the model clock) has two faces, the machine's zone and UTC, each an independent symbolic (weekday, hour); one entry with symbolic fields that pass Validate; the frame is judged in the machine's zone, as --allow-time-frame documents; model-only (the native clock cannot be set)
+
+//vf:harness property=C04 nopanic modelonly reach=timeframe-zone-faces-differ
+func vfH_C04_timeframe_zone() {
+	face := func(l string) (time.Weekday, int) {
+		wd, hour := vfrt.Int(l+"-weekday"), vfrt.Int(l+"-hour")
+		vfrt.Assume(wd >= 0)
+		vfrt.Assume(wd <= 6)
+		vfrt.Assume(hour >= 0)
+		vfrt.Assume(hour <= 23)
+		return time.Weekday(wd), hour
+	}
+	vfWD, vfHour = face("local")
+	vfUTCWD, vfUTCHour = face("utc")
+	e := ruleset.TimeFrameEntry{Weekday: time.Weekday(vfrt.Int("e-weekday")), HourStart: vfrt.Int("e-start"), HourEnd: vfrt.Int("e-end")}
+	vfrt.Assume(e.Validate() == nil)
+	want := e.Weekday == vfWD && e.HourStart <= vfHour && vfHour < e.HourEnd
+	got := TimeFrameAllows([]ruleset.TimeFrameEntry{e})
+	if vfWD != vfUTCWD || vfHour != vfUTCHour {
+		vfrt.Reach("timeframe-zone-faces-differ")
+	}
+	vfrt.Assert(got == want, "timeframe-zone/judged-in-the-machine-zone")
 }
